@@ -50,10 +50,13 @@ def strat_baseline():
             a = max(math.radians(-59), min(math.radians(59), a))
             x = float(round(x + seg * math.cos(a)))
             y = float(round(y + seg * math.sin(a)))
+        if len(pts) >= 3 and draw(st.integers(0, 9)) == 0:
+            k = draw(st.integers(0, len(pts) - 1))
+            pts.insert(k, pts[k])           # a repeated vertex (detectors and editors produce them)
         return dict(baseline=pts, heights=(float(draw(st.integers(5, 60))), float(draw(st.integers(2, 30)))),
                     line_height=draw(st.sampled_from([16, 24, 32, 48, 64])),
                     scale=draw(st.sampled_from([1.0, 0.8, 1.25, 1.5]) | st.floats(0.8, 1.5, allow_nan=False)),
-                    poly=draw(st.sampled_from([0, 1, 2])), img=(draw(st.integers(150, 500)), draw(st.integers(150, 500))),
+                    poly=draw(st.sampled_from([0, 1, 2, 0, 1, 2, 3, 4])), img=(draw(st.integers(150, 500)), draw(st.integers(150, 500))),
                     img_kind=draw(st.sampled_from(["noise", "gradient"])), seed=draw(st.integers(0, 2 ** 31 - 1)),
                     margin=draw(st.integers(1, 70)))
     return case()
@@ -97,10 +100,21 @@ def check_geometry(ctx, case, coords, desc):
     dev = max(chord_deviation([(math.floor(x), math.floor(y)) for x, y in base]), chord_deviation(base))
     # rounding the points down moves them by up to 1.42 px; polynomial fits stay within the deviation of the points from
     # their chord; a cubic spline through unevenly spaced points may overshoot by a small multiple of it
-    tol = (max(1.5, dev) + 1.5) if case["poly"] else (3.0 + 4.0 * dev)
+    tol = (max(1.5, dev) + 1.5) if case["poly"] in (1, 2) else (3.0 + 4.0 * dev)       # cubic spline and degree >= 3 fits may overshoot
     for col in range(0, W, max(1, W // 40)):
         d = geom.polyline_dist(tuple(centre[col]), base)
         ctx.check(d <= tol, "centre_row_off_baseline", lambda: "column %d at %r is %.2f px from the baseline (tolerance %.2f); " % (col, centre[col].tolist(), d, tol) + desc())
+    # modes that interpolate (cubic spline through >= 4 points; a polynomial whose degree is at least #points - 1) pass
+    # through every given point: up to the flooring of coordinates (1.42 px) and the column spacing
+    distinct = len({(math.floor(x), math.floor(y)) for x, y in base}) == len(base)
+    interpolating = distinct and ((case["poly"] == 0 and len(base) >= 4) or (case["poly"] >= len(base) - 1 >= 2))
+    if interpolating and W >= 8:
+        cpl = [tuple(p) for p in centre[::max(1, W // 400)]] + [tuple(centre[-1])]
+        for k, p in enumerate(base[1:-1], 1):
+            dk = geom.polyline_dist(p, cpl)
+            ctx.check(dk <= 3.0, "baseline_row_misses_a_given_point",
+                      lambda: "point %d %r is %.2f px from the baseline row; " % (k, p, dk) + desc())
+        ctx.event("interpolating_mode")
     d0 = math.hypot(*(centre[0] - np.asarray(base[0])))
     d1 = math.hypot(*(centre[-1] - np.asarray(base[-1])))
     step = L / max(1, W - 1)
@@ -236,7 +250,7 @@ def knife_edge(case):
     steps = int(math.ceil(L))
     if case["poly"] == 0 and len(P) >= 4 and np.abs(yr).max() > 1e-9:
         return False
-    deg = case["poly"] if (case["poly"] and len(P) > 2) else 1
+    deg = max(1, min(case["poly"], len(np.unique(np.floor(xr))) - 1)) if (case["poly"] and len(P) > 2) else 1
     coef = np.polyfit(xr, yr, deg)
     xs = xr.min() + np.arange(steps)
     ys = np.polyval(coef, xs)
